@@ -150,3 +150,7 @@ package mangos
 //@
 //@ func NewMessage
 //@   ensures result.refcnt == 1
+
+// ---- round 12: a transport's scheme is a fixed string (every implementation returns a literal) ----
+//@ interface Transport.Scheme
+//@   pure
